@@ -268,6 +268,8 @@ def removeFirst {α : Type} (l : List α) (p : α → Bool) : List α :=
 
 def procLine (d : D) (toks : List String) : D :=
   if d.err.isSome then d else
+  -- after the deadlock report the engine kills every actor: nothing left to check
+  if d.deadlocked then d else
   match toks with
   | [date, "phase"] => flush (onDate d date)
   | [date, who, "issue", k] =>
@@ -312,7 +314,9 @@ def procLine (d : D) (toks : List String) : D :=
         let d := if terminal (d.s.acts id).state then d else
           if (d.s.acts id).action = some .started then setS d (complete d.s id)
           else d
-        if stateName (d.s.acts id).state == st then d
+        -- the scan may have seen X_FAILURE just before a queued wait was answered (which turns it into FAILED)
+        let ms := (d.s.acts id).state
+        if stateName ms == st || (ms == .failed && ["LINK_FAILURE", "SRC_HOST_FAILURE", "DST_HOST_FAILURE"].contains st) then d
         else fail d (.disagree s!"activity {h} state model={stateName (d.s.acts id).state} impl={st}")
   | [date, who, "ret", k, r] =>
     let d := onDate d date
